@@ -1095,17 +1095,22 @@ fn bookmark_configs(t: usize, max_top: usize, deep: bool) -> Vec<Vec<(usize, Opt
     out
 }
 
-/// The plain entry point, then 1, 2, 3, n, max+1, 1000 and the current first number (nothing moves
-/// when the numbers are already dense).
+/// The plain entry point, then 0 (renumber_objects_with(0) is a legal call: the first object
+/// receives number 0), 1, 2, 3, n, max+1, 1000 and the current first number (nothing moves when
+/// the numbers are already dense).
 fn start_values(n: usize, min: u32, max: u32) -> Vec<Option<u32>> {
     let mut v: Vec<Option<u32>> = vec![None];
-    for s in [1, 2, 3, n as u32, max + 1, 1000, min] {
-        if s >= 1 && !v.contains(&Some(s)) {
+    for s in [0, 1, 2, 3, n as u32, max + 1, 1000, min] {
+        if !v.contains(&Some(s)) {
             v.push(Some(s));
         }
     }
     v
 }
+
+/// Start values of the renumbering chains of family H: every ordered pair (and the triples built
+/// on them) over these and the document's current first number is a history.
+const CHAIN_STARTS: [u32; 4] = [0, 1, 3, 10];
 
 fn shapes_a(n: usize) -> Vec<Shape> {
     match n {
@@ -1273,12 +1278,15 @@ fn family_a(run: &Run, shv: &Shared) {
     let nmax = if thorough { 5 } else { 4 };
     let sparse_pool = [3u32, 70, 1000, 65536, 4_000_000];
     let dense_pool: Vec<u32> = (1..=8).collect();
+    let zero_pool = [0u32, 1, 2, 4, 70];
     let mut number_sets = 0u64;
     // work item: (shape, number set); all sizes in one list so that no core idles
     let mut work: Vec<(Shape, Vec<u32>)> = vec![];
     for n in (1..=nmax).rev() {
         let mut sets = subsets(&dense_pool, n);
         sets.extend(subsets(&sparse_pool, n));
+        // documents that already hold an object numbered 0 (placed through the public map)
+        sets.extend(subsets(&zero_pool, n).into_iter().filter(|s| s.contains(&0)));
         number_sets += sets.len() as u64;
         for sh in shapes_a(n) {
             assert_eq!(sh.n(), n);
@@ -1341,7 +1349,7 @@ fn family_b(run: &Run, shv: &Shared) {
             let mut sh = Shape::plain(k).with("isot");
             sh.inter = it;
             let n = sh.n();
-            let sets: Vec<Vec<u32>> = vec![(1..=n as u32).collect(), (3..n as u32 + 3).collect(), sparse[..n].to_vec()];
+            let sets: Vec<Vec<u32>> = vec![(1..=n as u32).collect(), (3..n as u32 + 3).collect(), sparse[..n].to_vec(), (0..n as u32).collect()];
             let spread: Vec<usize> = (0..k).map(|i| if k == 1 { n / 2 } else { i * (n - 1) / (k - 1) }).collect();
             let layouts: Vec<Vec<usize>> = vec![(0..k).collect(), (n - k..n).collect(), spread];
             for set in &sets {
@@ -1782,6 +1790,24 @@ fn pre_sequences(sh: &Shape, n: usize, min: u32, max: u32) -> Vec<Vec<Pre>> {
     for s in start_values(n, min, max) {
         v.push(vec![Pre::Renumber(s)]);
     }
+    // renumbering chains: "start s1, then start s2 (, then the start under test)" for every ordered
+    // pair over {0, 1, 3, 10, current first number}; the start under test ranges over the same
+    // values, so the one-step histories give every ordered pair and these every triple
+    // (0 -> 10 -> 0 among them)
+    let mut chain: Vec<u32> = CHAIN_STARTS.to_vec();
+    if !chain.contains(&min) {
+        chain.push(min);
+    }
+    for &s1 in &chain {
+        if !v.contains(&vec![Pre::Renumber(Some(s1))]) {
+            v.push(vec![Pre::Renumber(Some(s1))]);
+        }
+        for &s2 in &chain {
+            if s1 != s2 {
+                v.push(vec![Pre::Renumber(Some(s1)), Pre::Renumber(Some(s2))]);
+            }
+        }
+    }
     for t in [info, shared, orphan, strm, last_page].into_iter().flatten() {
         v.push(vec![Pre::DeleteTag(t)]);
     }
@@ -1828,7 +1854,12 @@ fn family_h(run: &Run, shv: &Shared) {
         let k = sh.k;
         let full = (1u32 << n) - 1;
         let layouts: Vec<Vec<usize>> = if k == 0 { vec![vec![]] } else { vec![(0..k).collect(), (n - k..n).collect()] };
-        for set in number_sets(n) {
+        // the usual numberings, and documents that already hold an object numbered 0 (dense from 0;
+        // 0 followed by sparse numbers)
+        let mut sets = number_sets(n);
+        sets.push((0..n as u32).collect());
+        sets.push(std::iter::once(0).chain(SPARSE[..n - 1].iter().cloned()).collect());
+        for set in sets {
             for lay in &layouts {
                 for p in perms(k) {
                     for g in [0u32, 0x5555_5555 & full] {
@@ -1852,8 +1883,18 @@ fn family_h(run: &Run, shv: &Shared) {
         let gen = json!({"family": "H", "shape": sh.to_json(), "ids": ids.iter().map(|i| vec![i.0 as u64, i.1 as u64]).collect::<Vec<_>>(),
                          "dangling": dang.iter().map(|i| vec![i.0 as u64, i.1 as u64]).collect::<Vec<_>>()});
         let base = sh.page_base();
-        let targets: Vec<ObjectId> = if sh.tree { ids[base..base + sh.k].to_vec() } else { vec![ids[0]] };
-        let cfgs = bookmark_configs(targets.len(), if thorough { 2 } else { 1 }, false);
+        let mut targets: Vec<ObjectId> = if sh.tree { ids[base..base + sh.k].to_vec() } else { vec![ids[0]] };
+        let mut cfgs = bookmark_configs(targets.len(), if thorough { 2 } else { 1 }, false);
+        // the lowest-numbered object (the one that receives the start value itself) as bookmark
+        // target: alone, and nested with the first of the other targets in both orders
+        let low = *ids.iter().min().unwrap();
+        if !targets.contains(&low) {
+            targets.push(low);
+            let l = targets.len() - 1;
+            cfgs.push(vec![(l, None)]);
+            cfgs.push(vec![(l, None), (0, Some(0))]);
+            cfgs.push(vec![(0, None), (l, Some(0))]);
+        }
         let (mut cases, mut nontrivial, mut still, mut states) = (0u64, 0u64, 0u64, 0u64);
         for pre in pre_sequences(sh, n, min, max) {
             for cfg in &cfgs {
@@ -1878,7 +1919,13 @@ fn family_h(run: &Run, shv: &Shared) {
                     (Some(a), Some(b)) => (a.0, b.0),
                     _ => (1, 1),
                 };
-                for start in start_values(sn, smin, smax) {
+                let mut starts = start_values(sn, smin, smax);
+                for c in CHAIN_STARTS {
+                    if !starts.contains(&Some(c)) {
+                        starts.push(Some(c));
+                    }
+                }
+                for start in starts {
                     let out = run_final(&snap, state.clone(), start);
                     cases += 1;
                     if out.identity {
@@ -2936,10 +2983,11 @@ fn main() {
          patterns; thorough: all 2^n for n<=4). Family B: catalog, Pages root, optional intermediate Pages node over a prefix/suffix/all pages, \
          1..4 pages, Info, shared target, unreachable holder, stream - numbers dense from 1, dense from 3 or sparse; page numbers first, last or \
          spread among the others; every permutation of page numbers relative to page order; other roles ascending or descending; 4 generation \
-         patterns (none, all, alternating, pages only; quick with 4 pages: none and alternating). Each structure x start in {1,2,3,n,max+1,1000} + renumber_objects() x dangling refs off/on (quick family B with 4 pages, and family A with 5 objects: on only) \
+         patterns (none, all, alternating, pages only; quick with 4 pages: none and alternating). Each structure x start in {0,1,2,3,n,max+1,1000} + renumber_objects() x dangling refs off/on (quick family B with 4 pages, and family A with 5 objects: on only) \
          x every bookmark list: family B 0..3 top-level bookmarks over all pages, one top-level + one nested child, two top-level + a child \
          of the second (quick: 4 pages -> 0..2 top-level + the nested pair; 3 pages -> without the last group); family A 0..2 top-level + the \
-         nested pair (thorough: n <= 4 or one target as family B; 5 objects with 2-3 pages 0..1 top-level + the nested pair). Distinct by construction (the tags bind \
+         nested pair (thorough: n <= 4 or one target as family B; 5 objects with 2-3 pages 0..1 top-level + the nested pair). Family A also takes every size-n subset of {0,1,2,4,70} that contains 0, family B the numbers dense from 0: documents that already hold \
+         an object numbered 0 (placed through the public map), with every role - bookmark targets included - sitting on number 0 in turn. Distinct by construction (the tags bind \
          roles to numbers); a case is non-trivial when the recovered renaming is not the identity; the plain entry point repeats the input of \
          start 1 and is not counted as distinct. Every family also uses the start value equal to the document's current first number. \
          Family D (deep nesting): a container nest of depth d in {1,2,63,64,126,127,128,129,130,200,1000} (thorough: 16 more depths up to 2000) x \
@@ -2951,7 +2999,9 @@ fn main() {
          {2 pages + Info + shared + orphan + stream, 3 pages (2 under an intermediate node) + shared + orphan, no pages + Info + orphan} x the same \
          numberings x every history out of: one earlier renumbering with every start value; delete_object of Info / shared / orphan / stream / last \
          page; delete_pages first / last; add_object; objects.insert far above max_id; objects.remove of the last object; max_id set to 0 / max+100 \
-         / u32::MAX; save_to as table / stream; prune_objects; get_pages; and 10 two- and three-step combinations - then every start value computed \
+         / u32::MAX; save_to as table / stream; prune_objects; get_pages; and 10 two- and three-step combinations; renumbering chains: start s1 then start s2 for every ordered pair s1 != s2 over {0,1,3,10,current first number} \
+         (with the start under test ranging over the same values this is every ordered pair and every triple, 0 -> 10 -> 0 included); numberings also dense from 0 and \
+         {0, sparse...}; bookmark targets: the pages and the lowest-numbered object (alone and nested with the first page) - then every start value (plus 10) computed \
          on the resulting state (so 'start = current first number after an earlier renumbering' moves nothing) x dangling refs off/on x bookmark lists; \
          with >= 2 pages also: root Kids reversed through the public fields, alone, after get_pages, and after renumbering + get_pages. Family W \
          (many objects): 100, 255, 256, 257, 1000 (thorough: + 512, 1023, 1024, 1025, 4097) objects as a star (one array referencing all), a \
@@ -2990,7 +3040,7 @@ fn main() {
     run.assume("a Kids entry (or Root, Pages, Kids, Parent, Contents value) that names an alias object stands for the object at the end of the alias chain (ISO 32000-1 7.3.10); page order is compared on the Page dictionaries the yielded ids denote, so page_iter() may yield the entry's id or the page's own id");
     run.assume("family H compares the renumbering under test against the document state right before that call (objects, trailer, bookmark targets), not against the generated document; objects added by the history carry fresh tags");
     run.assume("deeply nested objects (family D) exist only in memory: lopdf's parser rejects nesting beyond its own limit, the statement is about Document values");
-    run.assume("domain: start >= 1, unique object numbers, well-formed page tree (a page listed twice in Kids is outside it), bookmarks target existing objects; every dictionary or stream object carries a unique integer /Tag (the tag is how the renaming is observed)");
+    run.assume("domain: start >= 0 (renumber_objects_with(0) gives the first object number 0, and an object numbered 0 in Document::objects is an object like any other - also as bookmark target), unique object numbers, well-formed page tree (a page listed twice in Kids is outside it), bookmarks target existing objects; every dictionary or stream object carries a unique integer /Tag (the tag is how the renaming is observed)");
     run.assume("a reference that resolved to nothing may afterwards be any reference to a missing object, or null");
     run.assume("objects not reachable from the trailer are only required to be renumbered (number, generation), not to have their references renamed - the statement speaks of the trailer and what is reachable from it");
     let open: Vec<String> = std::fs::read_to_string(vharness::run::verif_root().join("known_findings.json"))
